@@ -103,6 +103,12 @@ pub fn peephole_compile<'a>(
 ) -> Result<Fun, collections::Vec<'a, Diagnostic<VmFileId>>> {
   let (instructions, constants, lines) = chunk_builder.take();
 
+  #[cfg(feature = "verif")]
+  if crate::verif::recording_peephole() {
+    let (optimized, optimized_lines) = peephole_optimize(instructions.clone(), lines.clone());
+    crate::verif::note_peephole((instructions.clone(), lines.clone(), optimized, optimized_lines));
+  }
+
   let (mut instructions, lines) = peephole_optimize(instructions, lines);
 
   let label_count = label_count(&instructions);
@@ -143,6 +149,13 @@ fn peephole_optimize(
   let mut lines_cursor = VecCursor::new(lines);
 
   while !instructions_cursor.at_end() {
+    #[cfg(feature = "verif")]
+    if crate::verif::rule_masked(instructions_cursor.read_slice()) {
+      instructions_cursor.copy_cursors();
+      lines_cursor.copy_cursors();
+      continue;
+    }
+
     match instructions_cursor.read_slice() {
       [SymbolicByteCode::Drop, SymbolicByteCode::Drop, ..] => {
         drop(&mut instructions_cursor, &mut lines_cursor)
@@ -223,6 +236,15 @@ fn peephole_optimize(
   }
 
   (instructions_cursor.take(), lines_cursor.take())
+}
+
+/// Entry point to the optimiser for the verification harness
+#[cfg(feature = "verif")]
+pub fn verif_peephole(
+  instructions: Vec<SymbolicByteCode>,
+  lines: Vec<u16>,
+) -> (Vec<SymbolicByteCode>, Vec<u16>) {
+  peephole_optimize(instructions, lines)
 }
 
 fn drop(instructions: &mut VecCursor<SymbolicByteCode>, lines: &mut VecCursor<u16>) {
